@@ -87,6 +87,19 @@ var (
 	pChainD   = mk(0x3c) // driver: A, B, fund A, A, B, B
 	pRevWrap  = mk(0x3d) // calls pT2Sink then fails (the self-destruct is reverted)
 	pRevDrv   = mk(0x3e) // driver: reverted destruct, real destruct, fund, reverted destruct, destruct, destruct
+	// SELFDESTRUCT executed through DELEGATECALL / CALLCODE: the context account (the wallet) is the one destroyed
+	pLibSink  = mk(0x40) // library: SELFDESTRUCT(sink), holds a balance of its own
+	pLibSink0 = mk(0x41) // the same without balance
+	pLibSelf  = mk(0x42) // library: SELFDESTRUCT(ADDRESS) = to the context account itself
+	pLibLib   = mk(0x43) // library: SELFDESTRUCT(<the library's own address>)
+	pLibMid   = mk(0x44) // library that DELEGATECALLs pLibSink (nested)
+	pWalD     = mk(0x45) // wallet with balance: DELEGATECALL pLibSink
+	pWalD0    = mk(0x46) // wallet without balance: DELEGATECALL pLibSink
+	pWalC     = mk(0x47) // wallet with balance: CALLCODE pLibSink0
+	pWalSelf  = mk(0x48) // wallet with balance: DELEGATECALL pLibSelf
+	pWalLib   = mk(0x49) // wallet with balance: DELEGATECALL pLibLib
+	pWalNest  = mk(0x4a) // wallet with balance: DELEGATECALL pLibMid -> DELEGATECALL pLibSink
+	pWalTwice = mk(0x4b) // wallet: DELEGATECALL pLibSink, is re-funded by the caller's value, CALLCODE pLibSink0 again
 )
 
 // ------------------------------------------------------------------ issuance schedule, from the property text
@@ -461,6 +474,14 @@ func seq(steps ...callStep) []byte {
 	return a.Op(STOP).B
 }
 
+// DELEGATECALL(gas, lib, 0, 0, 0, 0) POP  /  CALLCODE(gas, lib, value, 0, 0, 0, 0) POP
+func delegate(lib common.Address) *Asm {
+	return A().Push(0).Push(0).Push(0).Push(0).PushAddr(lib).Push(80000).Op(0xf4).Op(POP)
+}
+func callcode(lib common.Address, value uint64) *Asm {
+	return A().Push(0).Push(0).Push(0).Push(0).Push(value).PushAddr(lib).Push(80000).Op(0xf2).Op(POP)
+}
+
 func progs() []prog {
 	// CALL(gas 0, COINBASE / CALLER, value 3)
 	payTo := func(op byte) []byte {
@@ -503,6 +524,18 @@ func progs() []prog {
 		{name: "chain-driver", addr: pChainD, code: seq(c0(pChainA), c0(pChainB), cv(pChainA, 2), c0(pChainA), c0(pChainB), c0(pChainB)), bal: 30},
 		{name: "revert-wrap", addr: pRevWrap, code: A().Call(60000, pT2Sink, 0).Op(POP).Op(INVALID).B},
 		{name: "revert-driver", addr: pRevDrv, code: seq(c0(pRevWrap), c0(pT2Sink), cv(pT2Sink, 5), c0(pRevWrap), c0(pT2Sink), c0(pT2Sink)), bal: 30},
+		{name: "lib-sink", addr: pLibSink, code: A().PushAddr(sink).Op(SELFDESTRUCT).B, bal: 7},
+		{name: "lib-sink0", addr: pLibSink0, code: A().PushAddr(sink).Op(SELFDESTRUCT).B},
+		{name: "lib-self", addr: pLibSelf, code: A().Op(ADDRESS).Op(SELFDESTRUCT).B, bal: 7},
+		{name: "lib-lib", addr: pLibLib, code: A().PushAddr(pLibLib).Op(SELFDESTRUCT).B, bal: 7},
+		{name: "lib-mid", addr: pLibMid, code: delegate(pLibSink).Op(STOP).B, bal: 3},
+		{name: "wallet-delegate", addr: pWalD, code: delegate(pLibSink).Op(STOP).B, bal: 10},
+		{name: "wallet-delegate-empty", addr: pWalD0, code: delegate(pLibSink).Op(STOP).B},
+		{name: "wallet-callcode", addr: pWalC, code: callcode(pLibSink0, 0).Op(STOP).B, bal: 10},
+		{name: "wallet-delegate-self", addr: pWalSelf, code: delegate(pLibSelf).Op(STOP).B, bal: 10},
+		{name: "wallet-delegate-lib", addr: pWalLib, code: delegate(pLibLib).Op(STOP).B, bal: 10},
+		{name: "wallet-delegate-nested", addr: pWalNest, code: delegate(pLibMid).Op(STOP).B, bal: 10},
+		{name: "wallet-twice", addr: pWalTwice, code: delegate(pLibSink).Call(60000, pFunder, 0).Op(POP).B, bal: 10},
 		{name: "create-collide", addr: pCrColl, code: A().Create(2, A().SStore(0, 1).Op(STOP).B).Op(POP).Op(STOP).B, bal: 10},
 	}
 }
@@ -554,6 +587,13 @@ func txKinds() []txKind {
 		{name: "selfdestruct-then-outer-fails", mk: to(pSdRevO), sd: true},
 		{name: "selfdestruct-then-paid-again", mk: to(pSdPayO), sd: true},
 		{name: "selfdestruct-without-own-balance", mk: to(pSdEmpty), sd: true},
+		{name: "selfdestruct-via-delegatecall:wallet-with-balance,library-with-balance", mk: to(pWalD), sd: true},
+		{name: "selfdestruct-via-delegatecall:wallet-without-balance", mk: to(pWalD0), sd: true},
+		{name: "selfdestruct-via-callcode:wallet-with-balance,library-without-balance", mk: to(pWalC), sd: true},
+		{name: "selfdestruct-via-delegatecall:to-the-wallet-itself", mk: to(pWalSelf), sd: true},
+		{name: "selfdestruct-via-delegatecall:to-the-library", mk: to(pWalLib), sd: true},
+		{name: "selfdestruct-via-delegatecall:nested", mk: to(pWalNest), sd: true},
+		{name: "selfdestruct-via-delegatecall:then-called-again", mk: to(pWalTwice), sd: true},
 		{name: "multi:destruct-fund-destruct-x3", mk: to(pRepeat), sd: true},
 		{name: "multi:destruct-fund-via-third-contract-destruct-x2", mk: to(pRepeatF), sd: true},
 		{name: "multi:destruct-to-fresh-fund-destruct-x2", mk: to(pRepeatN), sd: true},
